@@ -485,6 +485,9 @@ const PIECES: [&str; 22] = ["a", "b", ",", "\"", "\"\"", "\n", "\r", "\r\n", " "
 thread_local! {
     /// largest variable-length value (bytes) / element count drawn for the current case (for the `sz:` tag)
     static MAX_SIZE: std::cell::Cell<usize> = const { std::cell::Cell::new(0) };
+    /// the ~64 KiB class is only drawn for ops whose Lean model runs in linear time (the CSV automaton and the
+    /// JSON string decoder append to lists: quadratic in one value's length)
+    static HUGE_OK: std::cell::Cell<bool> = const { std::cell::Cell::new(true) };
 }
 fn note_size(n: usize) {
     MAX_SIZE.with(|m| m.set(m.get().max(n)));
@@ -513,7 +516,7 @@ fn size_class(rng: &mut Rng) -> usize {
         920..=959 => 511 + rng.usize(4),
         960..=989 => 1023 + rng.usize(4),
         990..=996 => 4094 + rng.usize(5),
-        _ => 65534 + rng.usize(4),
+        _ => if HUGE_OK.with(|h| h.get()) { 65534 + rng.usize(4) } else { 4094 + rng.usize(5) },
     };
     note_size(n);
     n
@@ -679,7 +682,9 @@ fn gen_case(rng: &mut Rng) -> (String, String) {
     (line, format!("{} {}", tags, size_tag()))
 }
 fn gen_case_inner(rng: &mut Rng) -> (String, String) {
-    match rng.below(11) {
+    let op = rng.below(11);
+    HUGE_OK.with(|h| h.set(op >= 6));
+    match op {
         0 | 1 => {
             let d = *rng.pick(&[b',', b',', b';', b'\t', b'|']);
             let k = 1 + rng.usize(4);
